@@ -623,7 +623,10 @@ def _assemble(template_path, repo, vacuity=False):
                 fid_out = fid
             text = strip_comments(raw)
             snap = load_snapshots().get('%s|%s|%s|%s' % (rel, owner, name, opts.get('trait') or ''))
-            if snap is not None and re.sub(r'\s+', ' ', snap) != re.sub(r'\s+', ' ', text):
+            changed_fn = snap is not None and re.sub(r'\s+', ' ', snap) != re.sub(r'\s+', ' ', text)
+            if changed_fn:
+                meta.setdefault('changed_fns', []).append(fid_out)
+            if changed_fn:
                 rmap = rename_map(snap, text)
                 if rmap:
                     # locals / parameters that were renamed in /repo: the annotations follow the rename (logged)
